@@ -141,6 +141,17 @@ func (s *scripted) Read(p []byte) (int, error) {
 
 // helpers -------------------------------------------------------------------
 
+// outHex encodes a returned value; values beyond 1 MiB are replaced by a
+// marker carrying length and digest so that a runaway result cannot flood the
+// parent.
+func outHex(b []byte) string {
+	if len(b) > 1<<20 {
+		h := sha256.Sum256(b)
+		return hex.EncodeToString([]byte(fmt.Sprintf("<<truncated len=%d sha256=%x>>", len(b), h)))
+	}
+	return hex.EncodeToString(b)
+}
+
 func errInfo(err error) *plan.ErrInfo {
 	if err == nil {
 		return nil
@@ -244,13 +255,13 @@ func (st *state) exec(op *plan.Op, shared *scripted) (res plan.Res) {
 		switch op.Fn {
 		case "enc":
 			out, err := bip39.NewMnemonicByEntropy(ent, bip39.Language(op.L))
-			res.Out, res.OutOK, res.Err = hex.EncodeToString([]byte(out)), true, errInfo(err)
+			res.Out, res.OutOK, res.Err = outHex([]byte(out)), true, errInfo(err)
 			if op.Keep {
 				st.keep = append(st.keep, kept{i: op.I, s: out})
 			}
 		case "new":
 			out, err := bip39.NewMnemonic(int(op.N), bip39.Language(op.L))
-			res.Out, res.OutOK, res.Err = hex.EncodeToString([]byte(out)), true, errInfo(err)
+			res.Out, res.OutOK, res.Err = outHex([]byte(out)), true, errInfo(err)
 			if op.Keep {
 				st.keep = append(st.keep, kept{i: op.I, s: out})
 			}
@@ -262,7 +273,7 @@ func (st *state) exec(op *plan.Op, shared *scripted) (res plan.Res) {
 			} else {
 				out, err = bip39.NewMnemonic(int(op.N), bip39.Language(op.L))
 			}
-			res.Out, res.Err = hex.EncodeToString([]byte(out)), errInfo(err)
+			res.Out, res.Err = outHex([]byte(out)), errInfo(err)
 			res.Err2 = errInfo(bip39.CheckMnemonic(out, bip39.Language(op.L)))
 			b := bip39.IsMnemonicValid(out, bip39.Language(op.L))
 			res.B, res.OutOK = &b, true
@@ -278,7 +289,7 @@ func (st *state) exec(op *plan.Op, shared *scripted) (res plan.Res) {
 			res.B, res.OutOK = &b, true
 		case "seed":
 			out := bip39.MnemonicToSeed(s, p)
-			res.Out, res.OutOK = hex.EncodeToString(out), true
+			res.Out, res.OutOK = outHex(out), true
 			if out == nil {
 				res.Info = append(res.Info, "nil")
 			}
@@ -305,7 +316,7 @@ func (st *state) exec(op *plan.Op, shared *scripted) (res plan.Res) {
 			res.OutOK = true
 		case "str":
 			out := bip39.Language(op.L).String()
-			res.Out, res.OutOK = hex.EncodeToString([]byte(out)), true
+			res.Out, res.OutOK = outHex([]byte(out)), true
 		case "strrange":
 			h := sha256.New()
 			for v := op.Lo; ; v++ {
